@@ -2339,3 +2339,4 @@ V("C06", "dependencies_deduplicated_by_parameter_object", "fire", "R06.m", (Z, "
 V("C07", "benign_dependencies_returned_as_a_copy", "benign", None, (Z, "                dependencies += _params_depended_on(subdep, intermediate=intermediate)[0]\n    return dependencies", "                dependencies += _params_depended_on(subdep, intermediate=intermediate)[0]\n    return list(dependencies)"))
 V("C20", "finite_floats_printed_with_fifteen_digits", "fire", "R20.b", (Z, "    rep = repr(value)\n    if rep in ('inf', '-inf', 'nan'):", "    rep = repr(value)\n    if rep not in ('inf', '-inf', 'nan') and len(rep) > 17:\n        rep = '%.15g' % value\n    if rep in ('inf', '-inf', 'nan'):"))
 V("C20", "benign_finite_floats_printed_with_seventeen_digits_when_needed", "benign", None, (Z, "    rep = repr(value)\n    if rep in ('inf', '-inf', 'nan'):", "    rep = repr(value)\n    text = str(value)\n    if rep in ('inf', '-inf', 'nan'):"))
+V("C13", "benign_serializer_reporter_bound_to_a_local", "benign", None, ("param/serializer.py", "        for name, p in pobj.param.objects('existing').items():\n            if subset is not None and name not in subset:\n                continue\n            value = pobj.param.get_value_generator(name)", "        report = pobj.param.get_value_generator\n        for name, p in pobj.param.objects('existing').items():\n            if subset is not None and name not in subset:\n                continue\n            value = report(name)"))
